@@ -80,6 +80,19 @@ def adapt(case):
     if case['source'] == 'sqlite':
         from tv.gen import sqlite as S
         case['frame'] = S.restrict_frame(case['frame'])
+        ints = [c for c in case['frame']['cols'] if c['kind'] == 'int64'
+                and 'PRIMARY' not in c.get('decl', '')]
+        if ints and case['frame']['n'] % 3 != 1:
+            ints[0]['decl'] = ('numeric' if case['frame']['n'] % 3 == 0
+                               else 'number')
+        for c in case['frame']['cols']:
+            if (c['kind'] == 'int64' and c.get('decl') in ('numeric',
+                                                           'number')
+                    and c['cells'] and case['frame']['n'] % 2 == 0):
+                # identifiers that no double holds exactly
+                c['cells'][0] = 2**53 + 1
+                if len(c['cells']) > 1:
+                    c['cells'][-1] = -(2**53) - 3
         keyable = [c for c in case['frame']['cols']
                    if c['kind'] == 'ostr' and len(set(
                        v for v in c['cells'] if v is not None)) == len(
@@ -185,6 +198,28 @@ def run(case, ctx):
     if source == 'df':
         from tdda.constraints import discover_df
         df = F.build_frame(desc)
+        fillable = {'float64': 1.5, 'Float64': 1.5, 'float32': 1.5,
+                    'ostr': 'filled', 'string': 'filled',
+                    'Int64': 1, 'Int32': 1, 'boolean': True}
+        if desc['n'] and (desc['n'] + len(desc['cols'])) % 3 == 0:
+            # a history: the frame is derived (copy, then nulls put back in
+            # place) from an earlier version of itself without nulls, from
+            # which constraints were discovered a moment ago
+            prev = df.copy()
+            for c in desc['cols']:
+                if c['kind'] in fillable and any(v is None
+                                                 for v in c['cells']):
+                    prev[c['name']] = prev[c['name']].fillna(
+                        fillable[c['kind']])
+            quiet(discover_df, prev, inc_rex=False)
+            full = df
+            df = prev.copy()
+            for c in desc['cols']:
+                if c['kind'] in fillable and any(v is None
+                                                 for v in c['cells']):
+                    df[c['name']] = prev[c['name']].mask(
+                        full[c['name']].isna())
+            out.label('history:derived-from-a-frame-discovered-before')
         if int_labels:
             # column labels that are numbers (a frame read without a header,
             # years as columns): constraints are reported under the label
